@@ -145,6 +145,10 @@ func (P) Gen(rng *sim.Rng, tier string) *harness.Case {
 					}
 				case 2:
 					ops = append(ops, harness.Op{K: "fevent", N: uint64(rng.Range(1, 2))})
+				case 3:
+					// the file is rotated the ordinary way, back to back: moved aside, written anew under its name, the
+					// copy that was moved aside removed
+					ops = append(ops, harness.Op{K: "frotate", F: rng.Chance(0.5)})
 				default:
 					mangle := 0
 					if rng.Chance(0.35) {
@@ -926,6 +930,58 @@ func (P) Exec(c *harness.Case) *harness.Outcome {
 					fsrc.st.last, fsrc.st.has = append([]byte{}, fsrc.content...), true
 					w.apply(cfg.FileM, fsrc.list, fsrc.desc)
 				}
+			}
+		case "frotate":
+			if fsrc == nil || fsrc.gone {
+				continue
+			}
+			for len(fsrc.pending) > 0 {
+				if !deliverEvent(step, 1) {
+					return o
+				}
+			}
+			wt := simfsnotify.Last()
+			if wt == nil || wt.Closed() {
+				continue
+			}
+			// rename(file, file.bak); write(file); unlink(file.bak) - all three are queued on the watch of the OLD
+			// inode before the source gets to the first of them. The watch is inotify's, i.e. the inode's: the
+			// removal of the copy is announced on it. By then the source has dropped that watch and registered
+			// one on the new file, and the watcher library (fsnotify 1.4.7) no longer knows a path for the old
+			// watch descriptor: it hands the event out as {Name: "", Op: Remove}.
+			_ = os.Rename(fsrc.path, fsrc.path+".bak")
+			_ = os.WriteFile(fsrc.path, fsrc.content, 0o644)
+			_ = os.Remove(fsrc.path + ".bak")
+			o.Fault("file_rotated")
+			evs := []simfsnotify.Event{{Name: fsrc.path, Op: simfsnotify.Rename}, {Name: "", Op: simfsnotify.Remove}}
+			if op.F {
+				// (or the source was quick and still held the old watch when the removal was announced: then the
+				// event carries the path)
+				evs[1].Name = fsrc.path
+			}
+			for i, ev := range evs {
+				received := false
+				ok := harness.Call(o, "C18.panic", step, func() {
+					select {
+					case wt.Events <- ev:
+						received = true
+					default:
+					}
+					Quiesce()
+				})
+				if !ok {
+					return o
+				}
+				if received && i == 0 {
+					// the source cleared the rules on the rename, watched the path again and read the new file
+					fsrc.st.has = false
+					w.apply(cfg.FileM, nil, nil)
+					if fsrc.dec && len(fsrc.content) > 0 && string(fsrc.content) != "null" {
+						fsrc.st.last, fsrc.st.has = append([]byte{}, fsrc.content...), true
+						w.apply(cfg.FileM, fsrc.list, fsrc.desc)
+					}
+				}
+				// (the second event does not concern the file under the watched name: nothing changes)
 			}
 		case "fremove", "frename":
 			if fsrc == nil || fsrc.gone {
